@@ -49,7 +49,7 @@ int        real_list_push(list_t *l, void *v);
 void      *real_list_remove(list_t *l, listNode_t *n);
 listNode_t *real_list_fetchNextNode(list_t *l, listNode_t *n);
 static int g_as_other;       /* the harness itself is acting for another thread (which holds the lock by construction) */
-#define LOCK_HELD() (g_as_other || (v_mutex_owner == v_self && v_mutex_depth > 0))
+#define LOCK_HELD() (g_as_other || (v_mutex_owner == v_tid && v_mutex_depth > 0))
 int snoopy_util_list_push(list_t *l, void *v) { V_ASSERT(LOCK_HELD(), "C09: repository modified (push) without holding the lock"); return real_list_push(l, v); }
 void *snoopy_util_list_remove(list_t *l, listNode_t *n) { V_ASSERT(LOCK_HELD(), "C09: repository modified (remove) without holding the lock"); return real_list_remove(l, n); }
 listNode_t *snoopy_util_list_fetchNextNode(list_t *l, listNode_t *n) { V_ASSERT(LOCK_HELD(), "C09: repository read without holding the lock"); return real_list_fetchNextNode(l, n); }
@@ -148,23 +148,30 @@ static void wrapped_call(const char *fn)
     V_ASSERT(c2 == c1 && c2->syslog_level == 5, "C09: the call keeps its OWN configuration record after other threads ran");
     V_ASSERT(repo_ok(1), "C09: repository consistent while the call is in progress (one record per thread inside)");
     snoopy_cleanup();
-    V_ASSERT(v_mutex_depth == 0 && v_mutex_owner != v_self, "C09: the lock is released at the end of the call");
+    V_ASSERT(v_mutex_owner != v_tid, "C09: the lock is released at the end of the call");
 }
 
 #ifdef FORK
 /* C10: called at every lock/unlock boundary of the parent thread T */
 static int g_boundary;
+static int g_forking;
 static void child_after_fork(void)
 {
+    g_forking = 1;
+    /* thread 2 (outside the library) calls fork(): registered handlers run - prepare in the parent ... */
+    v_self = 2; v_tid = 2;
+    if (v_atfork_prepare != NULL) { v_in_prepare = 1; v_atfork_prepare(); v_in_prepare = 0; }
+    /* ... the child is a copy of the memory image with ONE thread: same pthread_t, new kernel TID ... */
     v_child_mode = 1;
-    v_self = 2;                              /* the forking thread: it was outside the library, it is the only thread in the child */
+    v_tid = 102;
+    if (v_atfork_child != NULL) v_atfork_child();
     static const char cf[] = "c";
     wrapped_call(cf);                        /* must complete: logs (or drops) and reaches the real exec */
     V_ASSERT(repo_ok(0), "C10: the child's own call leaves no record of the child thread behind");
 }
 void v_boundary(void)
 {
-    if (v_child_mode) return;
+    if (v_child_mode || g_forking) return;
 #ifdef FORKP
     if (g_boundary == FORKP) {
 #else
